@@ -1,7 +1,7 @@
 (* Proofs/PartitionP.v — lemmas about Model/Partition.v (property C10):
    partition_circuit_qubits / numbering / TwoQubitQPDGate halves, sub-observables (keys, tensor product,
    repaired idle-qubit behaviour F4), refusals of partition_problem. *)
-From Coq Require Import Sorted Permutation.
+From Coq Require Import Sorted Permutation Relations.
 From CKT Require Import Common.Base Common.Circ Model.Observables Proofs.ObservablesP Model.Separate Model.Partition
   Proofs.SeparateP.
 
@@ -917,3 +917,219 @@ Section Total.
     intros qc EP. exact (cut_circuit_valid ls c qc IO EP).
   Qed.
 End Total.
+(* ================= partition_problem: the point where the sub-observables decide; automatic labels ================= *)
+Lemma span_fold_same ls l0 : forall qs, (forall q, In q qs -> nth q ls None = l0) ->
+  fold_left (span_step ls) qs [l0] = [l0].
+Proof.
+  induction qs as [|q r IH]; intros H; simpl; [reflexivity|]. unfold span_step at 2. simpl.
+  rewrite (H q) by now left.
+  assert (E : label_beq l0 l0 = true) by now apply okey_beq_eq. rewrite E. simpl. apply IH. intros x Hx. apply H. now right.
+Qed.
+
+Lemma span_all_equal ls qs : qs <> [] -> (forall q q', In q qs -> In q' qs -> nth q ls None = nth q' ls None) ->
+  length (span_labels ls qs) = 1.
+Proof.
+  intros NE H. rewrite span_labels_fold. destruct qs as [|q0 r]; [congruence|]. simpl. unfold span_step at 2. simpl.
+  rewrite span_fold_same; [reflexivity|]. intros q Hq. apply H; [now right|now left].
+Qed.
+
+Section Reach.
+  Variable basis_of : op -> option (nat * qlabel).
+  Variable relabel : qlabel -> nat.
+  Variable dx : circ -> circ.
+  Hypothesis DX : dx_contract dx.
+
+  (* under the premises of totality the call gets as far as the sub-observables, which alone decide the outcome *)
+  Lemma problem_reaches_subobs n c labels obs :
+    labels_ok n labels -> obs_sizes_ok n obs -> obs_phases_ok obs ->
+    let ls := labels_used n c labels in
+    input_ok ls c -> (forall i, In i c -> ~ uncuttable basis_of ls i) ->
+    exists subs bases,
+      partition_problem basis_of relabel dx n 0 0 c labels obs =
+      match obs with
+      | None | Some [] => Ok (subs, bases, None)
+      | Some ps => match sub_observables ls ps with
+                   | Ok so => Ok (subs, bases, Some so)
+                   | Refused => Refused
+                   | Crashed => Crashed
+                   end
+      end.
+  Proof.
+    intros LO SO PO ls IO NU.
+    assert (Ln : length ls = n).
+    { unfold ls, labels_used. destruct labels as [l0|]; [exact LO|apply auto_labels_length]. }
+    unfold partition_problem. rewrite (labels_ok_pass n labels LO).
+    destruct (obs_pass n obs SO PO) as [-> ->]. simpl. fold (labels_used n c labels). fold ls.
+    unfold partition_circuit_qubits. rewrite Ln, Nat.eqb_refl. simpl.
+    destruct (pcq_loop_total basis_of ls c NU) as [qc EP]. rewrite EP.
+    destruct (cut_circuit_valid basis_of relabel dx DX ls c qc IO EP) as [NE [V CL]].
+    destruct (number_qpd relabel qc 0) as [qc' bs] eqn:EN. simpl in *.
+    destruct (separate_total n [] (dx qc') ls NE Ln V CL) as [subs ES]. rewrite ES.
+    exists subs, bs. destruct obs as [[|p ps]|]; try reflexivity.
+  Qed.
+
+  (* repaired behaviour F4, sharp form: such a request is REFUSED (not merely "never answered") *)
+  Theorem idle_observable_refused n c labels ps p q :
+    labels_ok n labels -> obs_sizes_ok n (Some ps) -> obs_phases_ok (Some ps) ->
+    let ls := labels_used n c labels in
+    input_ok ls c -> (forall i, In i c -> ~ uncuttable basis_of ls i) ->
+    In p ps -> q < n -> nth q ls None = None -> nth q (plets p) 0 <> 0 ->
+    partition_problem basis_of relabel dx n 0 0 c labels (Some ps) = Refused.
+  Proof.
+    intros LO SO PO ls IO NU Hp Hq Eq NZ.
+    assert (Ln : length ls = n).
+    { unfold ls, labels_used. destruct labels as [l0|]; [exact LO|apply auto_labels_length]. }
+    destruct (problem_reaches_subobs n c labels (Some ps) LO SO PO IO NU) as [subs [bases E]]. rewrite E. fold ls.
+    destruct ps as [|p0 ps0]; [destruct Hp|].
+    rewrite (subobs_refused ls (p0 :: ps0) p q Hp); auto. lia.
+  Qed.
+
+  (* automatic labels: the conditions on the labelling follow from the shape of the input *)
+  Definition shape_ok (n : nat) (c : circ) : Prop :=
+    in_range n c /\ forall i, In i c -> iqs i <> [] /\ ics i = [] /\ (is_qpd2 i = true -> length (iqs i) = 2).
+
+  Lemma auto_input_ok n c : shape_ok n c -> input_ok (labels_used n c None) c.
+  Proof.
+    intros [R SH]. simpl. destruct (auto_components n is_qpd2 c R) as [_ [IDLE _]].
+    intros i Hi. destruct (SH i Hi) as [NE [IC Q2]]. repeat split; auto.
+    intros q Hq E. apply (IDLE q (R i q Hi Hq)) in E. exact (E i Hi Hq).
+  Qed.
+
+  Lemma auto_never_uncuttable n c i : shape_ok n c -> In i c -> ~ uncuttable basis_of (labels_used n c None) i.
+  Proof.
+    intros [R SH] Hi [IB [L1 [SP W]]]. simpl in SP. destruct (SH i Hi) as [NE [_ Q2]].
+    destruct (is_qpd2 i) eqn:IQ.
+    - specialize (Q2 eq_refl). destruct W as [W|[W _]]; [lia|discriminate].
+    - apply SP. apply span_all_equal; [exact NE|]. intros q q' Hq Hq'.
+      destruct (auto_components n is_qpd2 c R) as [_ [IDLE [CONN _]]].
+      apply (CONN q q' (R i q Hi Hq) (R i q' Hi Hq')).
+      + intros E. apply (IDLE q (R i q Hi Hq)) in E. exact (E i Hi Hq).
+      + apply rst_step. exists i. auto.
+  Qed.
+
+  Theorem problem_total_auto n c obs :
+    shape_ok n c -> obs_sizes_ok n obs -> obs_phases_ok obs ->
+    (forall ps p q, obs = Some ps -> In p ps -> q < n -> untouched c q -> nth q (plets p) 0 = 0) ->
+    exists r, partition_problem basis_of relabel dx n 0 0 c None obs = Ok r.
+  Proof.
+    intros SH SO PO ID. apply (problem_total basis_of relabel dx DX n c None obs I SO PO).
+    - now apply auto_input_ok.
+    - intros i Hi. now apply auto_never_uncuttable.
+    - intros ps p q E Hp Hq EN. apply (ID ps p q E Hp Hq). destruct SH as [R _].
+      destruct (auto_components n is_qpd2 c R) as [_ [IDLE _]]. now apply (IDLE q Hq).
+  Qed.
+
+  (* the returned sub-observables, with the facts needed to read c10_subobs_tensor as "is the original observable" *)
+  Theorem problem_subobs_full n ncl ncr c labels obs subs bases so :
+    partition_problem basis_of relabel dx n ncl ncr c labels obs = Ok (subs, bases, Some so) ->
+    exists ps, obs = Some ps /\ ps <> [] /\ length (labels_used n c labels) = n /\
+               (forall p, In p ps -> length (plets p) = n /\ pphase p = 0) /\
+               sub_observables (labels_used n c labels) ps = Ok so.
+  Proof.
+    intros H. destruct (problem_subobs basis_of relabel dx _ _ _ _ _ _ _ _ _ H) as [ps [E [NE [Ln [_ ES]]]]].
+    destruct (partition_problem_ok _ _ _ _ _ _ _ _ _ _ _ _ H) as [_ [_ [SZ _]]].
+    exists ps. repeat split; auto; now destruct (SZ ps E p H0).
+  Qed.
+End Reach.
+
+(* ================= which placeholder halves occur in the subcircuits ================= *)
+Lemma remap_all_In_inv qs cl : forall c c' x, remap_all qs cl c = Some c' -> In x c' ->
+  exists x0, In x0 c /\ remap_instr qs cl x0 = Some x.
+Proof.
+  induction c as [|i r IH]; simpl; intros c' x H Hx; [inversion H; subst; destruct Hx|].
+  destruct (remap_instr qs cl i) as [i'|] eqn:E; [|discriminate].
+  destruct (remap_all qs cl r) as [r'|] eqn:ER; [|discriminate]. inversion H; subst.
+  destruct Hx as [<-|Hx]; [exists i; auto|]. destruct (IH r' x eq_refl Hx) as [x0 [A B]]. exists x0. auto.
+Qed.
+
+Lemma expand_In_inv2 c x : In x (expand_qpd2 c) ->
+  (In x c /\ ~ (is_qpd2 x = true /\ length (iqs x) = 2)) \/
+  (exists y b bid lbl a q, In y c /\ iop y = Qpd2 b bid lbl /\ iqs y = [a; q] /\
+     (x = mkI (Qpd1 b 0 bid lbl) [a] [] \/ x = mkI (Qpd1 b 1 bid lbl) [q] [])).
+Proof.
+  unfold expand_qpd2. intros H. apply in_flat_map in H as [y [Hy H]]. unfold expand_instr in H.
+  destruct (iop y) eqn:EO; try (destruct H as [<-|[]]; left; split; [exact Hy|]; unfold is_qpd2; rewrite EO; intros [X _]; discriminate).
+  destruct (iqs y) as [|a [|q [|? ?]]] eqn:EQ;
+    try (destruct H as [<-|[]]; left; split; [exact Hy|]; rewrite EQ; simpl; intros [_ X]; discriminate).
+  right. exists y, b, bid, lbl, a, q. repeat split; auto. destruct H as [<-|[<-|[]]]; auto.
+Qed.
+
+Section Unique.
+  Variable basis_of : op -> option (nat * qlabel).
+  Variable relabel : qlabel -> nat.
+  Variable dx : circ -> circ.
+  Hypothesis DX : dx_contract dx.
+
+  Lemma number_In_inv2 : forall c i0 y, In y (fst (number_qpd relabel c i0)) -> is_qpd2 y = true ->
+    exists j y0, nth_error (qpd2s c) j = Some y0 /\ y = relabel_instr relabel (i0 + j) y0.
+  Proof.
+    induction c as [|x r IH]; intros i0 y H Q; [destruct H|]. rewrite number_cons in H. rewrite qpd2s_cons.
+    destruct (is_qpd2 x) eqn:IQ; simpl in H; destruct H as [H|H].
+    - exists 0, x. split; [reflexivity|]. now rewrite Nat.add_0_r.
+    - destruct (IH _ _ H Q) as [j [y0 [A B]]]. exists (S j), y0. split; [exact A|]. rewrite B. f_equal. lia.
+    - subst y. congruence.
+    - apply (IH _ _ H Q).
+  Qed.
+
+  Definition numeric_half (i : instr) : Prop :=
+    exists b h bid lb k, iop i = Qpd1 b h bid (Some (lb, Some k)).
+
+  (* every placeholder half with a numeric suffix k found in a subcircuit IS half 0 or half 1 of the k-th placeholder
+     of the cut circuit, sitting on the re-indexed qubit of that placeholder in the partition of that qubit *)
+  Theorem cuts_only n ncl ncr c labels obs subs bases so :
+    no_uuid c -> (forall i, In i c -> ~ numeric_half i) ->
+    partition_problem basis_of relabel dx n ncl ncr c labels obs = Ok (subs, bases, so) ->
+    let ls := labels_used n c labels in
+    exists qc, partition_circuit_qubits basis_of n c ls = Ok qc /\
+      forall l nq body x b h bid lb k,
+        In (l, nq, body) subs -> In x body -> iop x = Qpd1 b h bid (Some (lb, Some k)) ->
+        exists y lbl a q w w',
+          nth_error (qpd2s qc) k = Some y /\ iop y = Qpd2 b bid lbl /\ lb = relabel lbl /\ iqs y = [a; q] /\
+          (h = 0 /\ w = a \/ h = 1 /\ w = q) /\ nth w ls None = Some l /\
+          index_of w (omembers ls l n) = Some w' /\ x = mkI (Qpd1 b h bid (Some (lb, Some k))) [w'] [].
+  Proof.
+    intros NU NH H. cbv zeta.
+    destruct (partition_problem_ok _ _ _ _ _ _ _ _ _ _ _ _ H) as [_ [_ [_ [qc [qm [EP [_ [ES _]]]]]]]].
+    set (ls := labels_used n c labels) in *. exists qc. split; [exact EP|].
+    assert (EPL : pcq_loop basis_of ls c = Ok qc).
+    { unfold partition_circuit_qubits in EP. destruct (negb (length ls =? n)); [discriminate|exact EP]. }
+    set (qc' := fst (number_qpd relabel qc 0)) in *.
+    pose proof (problem_no_uuid basis_of relabel dx DX ls c qc NU (pcq_ok_rel _ _ _ _ _ EP)) as NU'. fold qc' in NU'.
+    destruct (separate_spec n [] (dx qc') (Some ls) subs qm NU' ES) as [_ [_ [_ [_ [_ BODY]]]]]. simpl sep_labels in BODY.
+    intros l nq body x b h bid lb k Hs Hx EO.
+    destruct (BODY l nq body Hs) as [_ [_ RM]].
+    destruct (remap_all_In_inv _ _ _ _ x RM Hx) as [x0 [Hx0 RI]].
+    destruct (remap_instr_op _ _ _ _ RI) as [EO0 _]. rewrite EO in EO0.
+    apply in_flat_map in Hx0 as [z [Hz Hx0]]. unfold restrict_instr in Hx0.
+    destruct (needs_split z) eqn:NS.
+    { exfalso. unfold join_qs in Hx0. destruct (filter _ (iqs z)); [destruct Hx0|]. destruct Hx0 as [<-|[]]. discriminate. }
+    destruct (of_l ls l z) eqn:OL; [|destruct Hx0]. destruct Hx0 as [<-|[]].
+    unfold of_l in OL. apply okey_beq_eq in OL. apply inst_label_iff in OL as [_ LAB].
+    destruct (DX qc') as [PM _]. apply (Permutation_in _ PM) in Hz.
+    destruct (expand_In_inv2 _ _ Hz) as [[Hin NQ]|[y [b0 [bid0 [lbl0 [a [q [Hy [EOy [EQy XE]]]]]]]]]].
+    - (* not a half: it would be a numeric half of the input *)
+      exfalso. destruct (number_In_inv relabel _ _ _ Hin) as [y0 [k' [Hy0 E]]].
+      assert (Ez : z = y0).
+      { rewrite E. unfold relabel_instr. rewrite E in EO0. unfold relabel_instr in EO0.
+        destruct (iop y0) eqn:E0; try reflexivity. simpl in EO0. discriminate. }
+      subst y0. destruct (pcq_loop_steps basis_of ls c qc EPL z Hy0) as [i [Hi ESi]].
+      destruct (pcq_step_cases basis_of relabel ls i z ESi) as [[-> _]|[b1 [l1 [-> _]]]]; [|discriminate].
+      apply (NH i Hi). exists b, h, bid, lb, k. now symmetry.
+    - assert (Qy : is_qpd2 y = true) by (unfold is_qpd2; now rewrite EOy).
+      destruct (number_In_inv2 qc 0 y Hy Qy) as [j [y0 [Hj Ey]]]. simpl in Ey.
+      assert (Q0 : is_qpd2 y0 = true).
+      { destruct (relabel_instr_shape relabel j y0) as [_ [_ [_ E4]]]. rewrite <- Ey in E4. congruence. }
+      unfold is_qpd2 in Q0. destruct (iop y0) as [| | | | | |b1 bid1 lbl1| |] eqn:E0; try discriminate.
+      assert (Ey' : y = mkI (Qpd2 b1 bid1 (Some (relabel lbl1, Some j))) (iqs y0) (ics y0)).
+      { rewrite Ey. unfold relabel_instr. now rewrite E0. }
+      rewrite Ey' in EOy, EQy. simpl in EOy, EQy. inversion EOy; subst b0 bid0 lbl0.
+      assert (HALF : exists w, (h = 0 /\ w = a \/ h = 1 /\ w = q) /\
+                       z = mkI (Qpd1 b h bid (Some (lb, Some k))) [w] [] /\ b = b1 /\ bid = bid1 /\ lb = relabel lbl1 /\ k = j).
+      { destruct XE as [-> | ->]; simpl in EO0; inversion EO0; subst; [exists a|exists q]; repeat split; auto. }
+      destruct HALF as [w [HW [Ez [-> [-> [-> ->]]]]]].
+      exists y0, lbl1, a, q, w.
+      rewrite Ez in RI, LAB. unfold remap_instr in RI. simpl in RI.
+      destruct (index_of w (omembers ls l n)) as [w'|] eqn:EI; [|discriminate]. simpl in RI. inversion RI; subst x.
+      exists w'. repeat split; auto. apply LAB. now left.
+  Qed.
+End Unique.
